@@ -127,6 +127,9 @@ func gen(r *harn.Rng, tier string) interface{} {
 			// bind, close, re-bind the same address, close the stale handle again, bind once more, probe
 			ip := append([]string{"", "127.0.0.1"}, sc.HostIPs...)[r.Intn(2+len(sc.HostIPs))]
 			port := 4100 + w
+			if r.Bool(0.5) {
+				port = 4100 // the workers run the pattern on one port (mostly on different addresses of the host)
+			}
 			pip := ip
 			if pip == "" {
 				pip = sc.HostIPs[0]
